@@ -64,6 +64,11 @@ pub fn run(cases: &[Value], trace: &mut Trace, seed: u64) {
         let adapter = case["adapter"].as_str().unwrap_or("mutex");
         let (fsock, bsock) = UnixStream::pair().unwrap();
         let fdup = fsock.try_clone().unwrap();
+        let bdup = bsock.try_clone().unwrap();
+        // transient send faults under the calls of this case: the first send attempts of every call (frontend side) or of
+        // every answer (server side) are refused (0) or accept only that many bytes
+        let sendfault: Vec<u64> = case["sendfault"].as_array().map(|a| a.iter().map(|x| x.as_u64().unwrap_or(0)).collect()).unwrap_or_default();
+        let fault_be = case["faultside"].as_str() == Some("be");
         let core = Core::new();
         crate::eng_server::apply_dev(&core, &case["dev"]);
         let stop = Arc::new(AtomicBool::new(false));
@@ -99,7 +104,13 @@ pub fn run(cases: &[Value], trace: &mut Trace, seed: u64) {
                 s.calls.clear();
                 s.config_fill = rng.next() as u8;
                 s.queue_num = if shape == "big" { 0x8001 } else { 2 };
-                s.vring_base = rng.below(65536) as u32;
+                // the full 32-bit range (a packed ring's state needs more than 16 bits)
+                s.vring_base = match rng.below(4) {
+                    0 => rng.below(65536) as u32,
+                    1 => 0x10000 + rng.below(0xffff) as u32,
+                    2 => *rng.pick(&[0x8000_0000u32, 0xffff_ffff, 0x7fff_7fff, 0x10000]),
+                    _ => rng.next() as u32,
+                };
                 s.max_mem_slots = rng.u64_edge();
                 s.inflight = (rng.u64_edge(), rng.u64_edge(), 3, 77);
                 s.shmem = vec![0x1000, 0x2000];
@@ -118,6 +129,9 @@ pub fn run(cases: &[Value], trace: &mut Trace, seed: u64) {
             };
             let served0 = served.load(Ordering::SeqCst);
             let sent0 = SENT.load(Ordering::SeqCst);
+            if !sendfault.is_empty() {
+                crate::eng_sender::arm_send_only(if fault_be { &bdup } else { &fdup }, &sendfault, k % 2 == 1);
+            }
             let (tx, rx) = channel();
             let mut fe2 = fe.clone();
             let (op2, cls2) = (op.clone(), cls.clone());
@@ -152,6 +166,9 @@ pub fn run(cases: &[Value], trace: &mut Trace, seed: u64) {
                     std::thread::yield_now();
                 }
             }
+            if !sendfault.is_empty() {
+                crate::eng_sender::disarm_quiet();
+            }
             let calls = core.take_calls();
             let srv_errs: Vec<String> = std::mem::take(&mut *errs.lock().unwrap());
             let stray = if hang { 0 } else { fionread(std::os::unix::io::AsRawFd::as_raw_fd(&fdup)) };
@@ -175,6 +192,7 @@ pub fn run(cases: &[Value], trace: &mut Trace, seed: u64) {
             }
         }
         stop.store(true, Ordering::SeqCst);
+        drop(bdup);
         drop(fe);
         let _ = fdup.shutdown(std::net::Shutdown::Both);
         let _ = th.join();
